@@ -18,6 +18,7 @@ func init() {
 }
 
 func c17(c *Ctx) {
+	c.pageLoopsComplete("complete", "rollbackJournalSegment")
 	c.lockPgnoGuards("lockpgno")
 	{
 		p := c.P
